@@ -733,9 +733,18 @@ def step_correspondence_ellen(ctx, lin, only=None):
     model = conc_check.build_model(ctx, "Extract_Ellen.v", tag="ellen_model")
     d = os.path.join(SHARED, "bin" + ("" if vcheck.REPO == "/repo" else "_" + hashlib.sha256(vcheck.REPO.encode()).hexdigest()[:8]))
     impl = vcheck.cxx_build(os.path.join(vcheck.VERIF, "harness/C15/step_ellen.cpp"), os.path.join(d, "step_ellen"), hook=True)
-    n = 3000 if ctx.thorough() else 400
+    n = 3000 if ctx.thorough() else 250
     rng = ctx.rng.fork()
     cases = [c for c in load_corpus("C15") if c.get("ellen_step")] + [gen_ellen_case(rng, "e%d" % i) for i in range(n)]
+    # systematic single-preemption sweep: thread 0 runs i steps, thread 1 runs to completion, thread 0 finishes
+    pairs = [([6, 1], [1, 0]), ([6, 1], [1, 2]), ([6, 1], [6, 2]), ([1, 1], [1, 2]), ([6, 2], [6, 1]), ([1, 0], [6, 1]), ([6, 1], [6, 1]), ([1, 1], [1, 1])]
+    masks, stride = ((2, 6, 7), 1) if ctx.thorough() else ((6,), 6)
+    nsweep = 0
+    for mask in masks:
+        for a, b in pairs:
+            for i in range(0, 330, stride):
+                cases.append({"id": "w%d" % nsweep, "cfg": [mask], "threads": [[a], [b]], "sched": [0] * i + [1] * 600 + [0] * 600, "ellen": True})
+                nsweep += 1
     if only is not None:
         cases = [only]
     rc1, mlog, rc2, ilog, raw = conc_check.run_both(ctx, model, impl, cases, tag="ellenstep", timeout=1500, fuel=60000)
@@ -776,11 +785,12 @@ def step_correspondence_ellen(ctx, lin, only=None):
         "modelled": "cds::intrusive::EllenBinTree<HP>: insert (try_insert, help_insert), erase (check_delete_precondition, help_delete, help_marked), "
                     "contains, search with protect_child_node / search_protect_update and its retries, HP guards, m_nFlags loads, m_nEmptyUpdate, retire; keys 0..3",
         "cases": len(cases), "diverged": diverged, "impl_steps_compared": steps, "traces_validated_against_impl": len(cases) - diverged,
-        "distinct_event_logs": len(shapes), "cases_with_failed_cas": contended,
+        "distinct_event_logs": len(shapes), "cases_with_failed_cas": contended, "single_preemption_sweep_cases": nsweep,
         "bst_monitor": "tree_ok (keys of the left subtree < key <= keys of the right subtree, Inf1 < Inf2 on top, two children per internal node) "
                        "evaluated by the model after every atomic step; violations: %d" % monitor_fired,
         "rule": "1-3 threads x 1-3 operations, keys 0..3, prefilled subsets; uniform / bursty / run-then-switch / round-robin schedules, half of the cases "
-                "high-contention (1-3 keys, 2-3 threads, fine-grained switching); every atomic access (kind, canonical object, success) and every client event compared"}
+                "high-contention (1-3 keys, 2-3 threads, fine-grained switching); plus a systematic single-preemption sweep over 8 operation pairs "
+                "(thread 0 preempted after its i-th step, for every i); every atomic access (kind, canonical object, success) and every client event compared"}
     return diverged
 
 
